@@ -34,10 +34,49 @@ def run(ctx, out):
     rng = ctx.rng
     thorough = ctx.search_tier == "thorough"
     ops, kinds = [], []
+    seen = set()                 # 64-bit hashes of the inputs evaluated so far (de-duplication without keeping the strings)
+    first_ops, last = [], {}
+    BATCH = 3000000
+
+    def evaluate():
+        """run the collected batch through implementation (dev + release builds) and model, judge it, forget it"""
+        if not ops:
+            return
+        impl, model = ctx.pair(ops)
+        rel = ctx.harness(ops, release=True)
+        out.compare("dec/parse(malformed)", ops, impl, model)
+        out.evaluations += len(ops) * 2
+        for o, r, rr, kd in zip(ops, impl, rel, kinds):
+            cls = r.split()[0] + (":" + r.split()[1].split(":")[0] if r.startswith("err") else "")
+            out.count(kd + "/" + cls)
+            if not r.startswith("ok"):
+                rejected[0] += 1
+            bad = next((x.split()[0] for x in r.split(" ; ") if x.split() and x.split()[0] in BAD), None)
+            if bad or r.startswith("alloc-exceeded"):
+                out.oracle_failures.append({"op": o[:400], "observed": r[-200:], "expected": "ok … | err …", "key": o[:160],
+                                            "what": ("packet reader " if kd == "transport" else "decoder ") + {"panic": "panics", "died": "aborts the process", "hang": "does not return", "slow": "needs more than 5 s"}.get(bad, "allocates beyond a small multiple of its input") + f" ({kd})"})
+            elif kd == "calendar-impossible" and r.startswith("ok"):
+                out.oracle_failures.append({"op": o[:400], "observed": r[:200], "expected": "err …", "key": o[:160],
+                                            "what": "an impossible date / time of day is accepted: a number that does not fit its field must be an error, not a silently narrowed value"})
+            elif rr != r:
+                out.oracle_failures.append({"op": o[:400], "observed": "release: " + rr[:160], "expected": "debug: " + r[:160], "key": o[:160],
+                                            "what": f"debug and release builds decode differently ({kd}): a number that does not fit its field must be an error, not a wrapped value"})
+        if not first_ops:
+            first_ops.extend([ops[5], ops[len(ops) // 2][:200]])
+        last["op"], last["impl"] = ops[-1][:80] + "…", impl[-1][:80]
+        del ops[:], kinds[:]
+
+    rejected = [0]
 
     def add(op, kind):
+        h = hash(op)
+        if h in seen:
+            return
+        seen.add(h)
         ops.append(op)
         kinds.append(kind)
+        if len(ops) >= BATCH:
+            evaluate()
 
     cmds = [s for s in layout["structs"] if s["ctrl"] is not None]
     plain = [s for s in layout["structs"] if s["ctrl"] is None]
@@ -97,7 +136,6 @@ def run(ctx, out):
             for date, time in ((20231005, (12 + k) * 10000 + 3456), ((2023 + k) * 10000 + 1005, 123456), ((2023 + k) * 10000 + 1005, (12 + k) * 10000 + 3456)):
                 payload = b"\x1f\x0e" + R.ber_len(len(R.bcd(date))) + R.bcd(date) + b"\x1f\x0f" + R.ber_len(len(R.bcd(time))) + R.bcd(time)
                 add("dec " + rp["name"] + " " + (bytes([0x34]) + R.ber_len(len(payload)) + payload).hex(), "calendar" + ("" if valid_dt(date, time) else "-impossible"))
-    seen = set()
     for name, b in corpus:
         # truncations
         big = len(b) > 400 and not thorough
@@ -153,33 +191,10 @@ def run(ctx, out):
         for b in (0x00, 0x01, 0xfa, 0xfb, 0xfc, 0xfd, 0xfe, 0xff):
             add(f"read {pl} 06d1ff{a:02x}{b:02x}", "transport")
             add(f"read {pl} 06d1ff{a:02x}|{b:02x}4141", "transport")
-    # de-duplicate
-    uniq, ukinds = [], []
-    for o, k in zip(ops, kinds):
-        if o not in seen:
-            seen.add(o); uniq.append(o); ukinds.append(k)
-    ops, kinds = uniq, ukinds
-    impl, model = ctx.pair(ops)
-    rel = ctx.harness(ops, release=True)
-    out.compare("dec/parse(malformed)", ops, impl, model)
-    out.evaluations = len(ops) * 2
-    for o, r, rr, kd in zip(ops, impl, rel, kinds):
-        cls = r.split()[0] + (":" + r.split()[1].split(":")[0] if r.startswith("err") else "")
-        out.count(kd + "/" + cls)
-        if not r.startswith("ok"):
-            out.nontrivial.add(o)
-        bad = next((x.split()[0] for x in r.split(" ; ") if x.split() and x.split()[0] in BAD), None)
-        if bad or r.startswith("alloc-exceeded"):
-            out.oracle_failures.append({"op": o[:400], "observed": r[-200:], "expected": "ok … | err …", "key": o[:160],
-                                        "what": ("packet reader " if kd == "transport" else "decoder ") + {"panic": "panics", "died": "aborts the process", "hang": "does not return", "slow": "needs more than 5 s"}.get(bad, "allocates beyond a small multiple of its input") + f" ({kd})"})
-        elif kd == "calendar-impossible" and r.startswith("ok"):
-            out.oracle_failures.append({"op": o[:400], "observed": r[:200], "expected": "err …", "key": o[:160],
-                                        "what": "an impossible date / time of day is accepted: a number that does not fit its field must be an error, not a silently narrowed value"})
-        elif rr != r:
-            out.oracle_failures.append({"op": o[:400], "observed": "release: " + rr[:160], "expected": "debug: " + r[:160], "key": o[:160],
-                                        "what": f"debug and release builds decode differently ({kd}): a number that does not fit its field must be an error, not a wrapped value"})
+    evaluate()
+    out.nontrivial = rejected[0]
     out.rule = (f"every body of length <= 2 for all {len(cmds)} command decoders, {len(plain)} container decoders and {len(enums)} reply parsers (length 2: {'all 65536' if thorough else 'a 52x47 boundary grid'}); "
                 f"corpus = {len(caps)} captured blobs + {per} canonical packets per type: every truncation, single-byte substitutions ({'all 256' if thorough else '24 boundary'} values per offset), structure-aware mutations "
                 "(length edits, 81/82/FF/1F insertions, splices, deletions, 99.. digit runs, APDU length edits), calendar values (incl. hours / years that are valid only modulo 2^8 .. 2^32), 64 KiB inputs; the packet reader (io.rs) on headers announcing 0..3, 250..260, 65500..65535 bytes with full / half / no body; dev (overflow checks) and release builds answer identically; "
                 "allocation/time watchdog. non-trivial = distinct inputs that are rejected with an error")
-    out.samples = [ops[5], ops[len(ops) // 2][:200], {"op": ops[-1][:80] + "…", "impl": impl[-1][:80]}]
+    out.samples = first_ops + [last]
